@@ -14,6 +14,22 @@ REPORTS = os.path.join(EVID, "reports")
 KNOWN = os.path.join(VERIF, "known_findings.json")
 
 _PROGRAMS = {}
+_SIGS = None
+
+
+def _known_sigs():
+    global _SIGS
+    if _SIGS is None:
+        _SIGS = {}
+        try:
+            with open(os.path.join(os.path.dirname(__file__), "known_fns.txt")) as fh:
+                for l in fh:
+                    if "\t" in l:
+                        k, v = l.rstrip("\n").split("\t", 1)
+                        _SIGS[k] = v
+        except OSError:
+            pass
+    return _SIGS
 
 
 class Ctx:
@@ -80,9 +96,31 @@ class Ctx:
             self.violation("ANCHOR", "%s|%s" % (prog.config, key), str(e))
             return None
         if b is None:
+            b = self._renamed(prog, key)
+        if b is None:
             self.violation("ANCHOR", "%s|%s" % (prog.config, key),
                            "anchored function %s not found in config %s" % (key, prog.config))
         return b
+
+    def _renamed(self, prog, key):
+        """a private function that was only renamed: the unique function of the same module with the recorded signature whose
+        name the reference vocabulary (kv/known_fns.txt) does not know.  The rules then run on it as on the old name."""
+        sigs = _known_sigs()
+        want = sigs.get(key)
+        if want is None:
+            return None
+        mod = key.rsplit("::", 1)[0] + "::"
+        cands = []
+        for k, bs in prog.by_key.items():
+            if k.startswith(mod) and "::" not in k[len(mod):] and k not in sigs:
+                for b in bs:
+                    sig = "(%s) -> %s" % (", ".join(b.rec.get("sig_inputs") or []), b.rec.get("sig_output") or "")
+                    if sig == want and b.rec.get("vis") != "pub":
+                        cands.append(b)
+        if len(cands) == 1:
+            self.note("anchor %s resolved to the renamed %s (same module, same signature)" % (key, cands[0].key))
+            return cands[0]
+        return None
 
     def note(self, s):
         self.notes.append(s)
